@@ -1,6 +1,7 @@
 import Cinco.Proxy.ListProxy
 import Cinco.Proxy.DictProxy
 import Cinco.Proofs.FieldLemmas
+import Cinco.Generated.ContainerShape
 /-
   C17 — typed list/dict values behave like built-in list/dict of validated items.
 -/
@@ -303,6 +304,20 @@ theorem list_setidx_no_slot_item_irrelevant (E : Env) (f : FieldSpec) (xs : List
 
 /-- non-vacuity: index 5 names no item of a list of two -/
 example : resolveIdx ([Val.int 1, Val.int 2] : List Val).length 5 = none := by decide
+
+/-- **/repo's `ListProxy.__setitem__` is `lstep`'s index assignment, and a shallow copy by the `copy` module is `copy()`**
+    (generated reading of the two proxy classes, regenerated on every run): a slice assignment validates every item and then
+    delegates; an index assignment looks the index up (`super().__getitem__(index)`: the built-in's `IndexError` / `TypeError`),
+    then validates, then delegates (F76); `__copy__` of both proxies hands the work to `copy()`, which builds a proxy from a
+    compatible proxy — the fast path that takes the held items over as they are (F72). -/
+theorem setitem_and_copy_code_order :
+    Generated.containerShape.lookup "ListProxy.__setitem__" =
+      some ["if[isinstance(index, slice)]", "super().__setitem__(index, [self._validate(i) for i in item])", "else",
+            "super().__getitem__(index)", "super().__setitem__(index, self._validate(item))", "end"] ∧
+    Generated.containerShape.lookup "ListProxy.__copy__" = some ["return self.copy()"] ∧
+    Generated.containerShape.lookup "DictProxy.__copy__" = some ["return self.copy()"] ∧
+    Generated.containerShape.lookup "ListProxy.copy" = some ["return ListProxy(self.cfg, self.list_field, self)"] ∧
+    Generated.containerShape.lookup "DictProxy.copy" = some ["return DictProxy(self.cfg, self.dict_field, self)"] := by decide
 
 /-! ### Typed dicts -/
 
